@@ -11,7 +11,10 @@ import (
 	simwire "perun.network/go-perun/backend/sim/wire"
 	"perun.network/go-perun/wire"
 	_ "perun.network/go-perun/client"
+	"verif/harness/internal/c03"
+	"verif/harness/internal/c04"
 	"verif/harness/internal/c05"
+	"verif/harness/internal/c06"
 	"verif/harness/internal/c07"
 	"verif/harness/internal/c08"
 	"verif/harness/internal/c15"
@@ -26,7 +29,10 @@ import (
 )
 
 var drivers = map[string]func(seed int64, tier, out string){
+	"C03": c03.Run,
+	"C04": c04.Run,
 	"C05": c05.Run,
+	"C06": c06.Run,
 	"C07": c07.RunC07,
 	"C12": c07.RunC12,
 	"C08": c08.Run,
